@@ -142,10 +142,13 @@ fn call_arg(e: &Expr) -> Value {
     json!({"k": "unknown", "text": e.to_token_stream().to_string()})
 }
 
-fn call_of_f(s: &Stmt) -> Option<Vec<Value>> {
+/// `<local>(args)`: the name of the local that is called and the arguments
+fn call_of_f(s: &Stmt) -> Option<(String, Vec<Value>)> {
     if let Stmt::Expr(Expr::Call(c), _) = s {
-        if matches!(strip(&c.func), Expr::Path(p) if p.path.is_ident("f")) {
-            return Some(c.args.iter().map(call_arg).collect());
+        if let Expr::Path(p) = strip(&c.func) {
+            if let Some(i) = p.path.get_ident() {
+                return Some((i.to_string(), c.args.iter().map(call_arg).collect()));
+            }
         }
     }
     None
@@ -160,6 +163,17 @@ fn body(b: &syn::Block) -> Value {
     let stmts = &b.stmts;
     // forwarded: self.<field>.<fn>(args)
     if stmts.len() == 1 {
+        // forwarded without receiver: <FieldType>::<fn>(args); the field is looked up by its type where the struct is known
+        if let Stmt::Expr(Expr::Call(c), None) = &stmts[0] {
+            if let Expr::Path(p) = strip(&c.func) {
+                if let (Some(q), 1) = (&p.qself, p.path.segments.len()) {
+                    if q.position == 0 {
+                        return json!({"k": "field", "a": NONE, "f": "", "fn": p.path.segments[0].ident.to_string(), "static_via": ty(&q.ty),
+                                      "callargs": c.args.iter().map(call_arg).collect::<Vec<_>>()});
+                    }
+                }
+            }
+        }
         if let Stmt::Expr(Expr::MethodCall(mc), None) = &stmts[0] {
             if let Expr::Field(fe) = strip(&mc.receiver) {
                 if is_self(&fe.base) {
@@ -175,12 +189,13 @@ fn body(b: &syn::Block) -> Value {
     if stmts.len() != 2 {
         return unknown_body(b);
     }
-    let Some(callargs) = call_of_f(&stmts[1]) else { return unknown_body(b) };
+    // the local may have any name (pyxis picks one that no argument has); the call must go through it
+    let Some((local_name, callargs)) = call_of_f(&stmts[1]) else { return unknown_body(b) };
     let Stmt::Local(local) = &stmts[0] else { return unknown_body(b) };
     let Some(init) = &local.init else { return unknown_body(b) };
     match &local.pat {
         // let f: <fn type> = ::std::mem::transmute(<addr> as usize);
-        Pat::Type(pt) if matches!(&*pt.pat, Pat::Ident(i) if i.ident == "f") => {
+        Pat::Type(pt) if matches!(&*pt.pat, Pat::Ident(i) if i.ident == local_name.as_str()) => {
             let Expr::Call(c) = strip(&init.expr) else { return unknown_body(b) };
             let callee = c.func.to_token_stream().to_string().replace(' ', "");
             if !(callee.ends_with("mem::transmute")) || c.args.len() != 1 {
@@ -194,7 +209,7 @@ fn body(b: &syn::Block) -> Value {
             json!({"k": "addr", "a": int_json(addr), "f": "", "fn": "", "fnty": ty(&pt.ty), "callargs": callargs})
         }
         // let f = std::ptr::addr_of!((*self.vftable()).<name>).read();
-        Pat::Ident(i) if i.ident == "f" => {
+        Pat::Ident(i) if i.ident == local_name.as_str() => {
             let Expr::MethodCall(read) = strip(&init.expr) else { return unknown_body(b) };
             if read.method != "read" || !read.args.is_empty() {
                 return unknown_body(b);
@@ -678,7 +693,20 @@ pub fn file(src: &str) -> Result<Value, String> {
                         e["vftacc"] = json!({"has": true, "via": via, "count": count, "vis": vis(&mf.vis),
                             "ty": match &mf.sig.output { ReturnType::Default => json!({"k": "none"}), ReturnType::Type(_, t) => ty(t) }});
                     } else {
-                        e["methods"].as_array_mut().unwrap().push(method(mf));
+                        let mut m = method(mf);
+                        // a forwarder without receiver names the type of the base field: find the field
+                        if let Some(via) = m["body"].get("static_via").cloned() {
+                            let hits: Vec<String> = e["fields"]
+                                .as_array()
+                                .map(|fs| fs.iter().filter(|f| f["ty"] == via).map(|f| f["name"].as_str().unwrap_or("").to_string()).collect())
+                                .unwrap_or_default();
+                            if hits.len() == 1 {
+                                m["body"]["f"] = json!(hits[0]);
+                            } else {
+                                m["body"] = json!({"k": "unknown", "text": "static forwarder through a type that is not the type of exactly one field"});
+                            }
+                        }
+                        e["methods"].as_array_mut().unwrap().push(m);
                     }
                 }
                 top.push(json!({"kind": "impl", "name": self_ty, "idx": idx}));
